@@ -185,6 +185,21 @@ fn commit_file(rng: &mut Rng) -> B {
     b
 }
 
+/// A generated source file for `lang` (text only): used by the other drivers as rich input.
+pub fn render(lang: &str, seed: u64) -> String {
+    let mut rng = Rng::new(seed ^ (lang.len() as u64 * 7919));
+    match lang {
+        "markdown" => markdown_file(&mut rng, true).text,
+        "markdown-nolinktitle" => markdown_file(&mut rng, false).text,
+        "html" => html_file(&mut rng).text,
+        "typst" => typst_file(&mut rng).text,
+        "lhaskell" => lhs_file(&mut rng).text,
+        "git-commit" => commit_file(&mut rng).text,
+        "plain" => { let mut b = B::new(); b.prose_words(&mut rng, 6); b.text }
+        l => comment_file(l, &mut rng).text,
+    }
+}
+
 fn event(lang: &str, b: &B, crlf: bool) -> Value {
     let text = if crlf { b.text.clone() } else { b.text.clone() };
     let parser = front::base_parser(lang).unwrap();
